@@ -739,6 +739,12 @@ def run_squeeze(desc, axis, wire, exact, rp):
         if not parts_equal(exp, res, True):
             problems.append(('squeeze axes', 'squeeze({}): got {} expected {}'.format(
                 wire, show_desc(res), show_desc(exp))))
+    if axis is None and res is not None and res['c']:
+        # squeeze() is idempotent (C14.squeeze_idempotent): squeezing the result changes nothing
+        again, err2 = guarded(lambda: desc_of(build(res).squeeze()))
+        if not parts_equal(res, again, True):
+            problems.append(('squeeze axes idempotent', 'squeeze() of {} gives {}'.format(
+                show_desc(res), show_desc(again) if again is not None else 'raised ' + str(err2))))
     sig = ('squeeze', exact, nd, shape_class(desc), 'all' if axis is None else
            ('int' if isinstance(axis, int) else 'list')) if res is not None else None
     return Case('squeeze', line, res, problems, sig, rp, exact)
